@@ -194,3 +194,17 @@ def run_case(case, drv):
     res.features += [f"flavor:{flavor}", f"len:{min(len(case['ops']) // 4 * 4, 20)}+"]
     res.nontrivial = "set_depot_after_arcs_nonfirst" in res.features
     return res
+
+
+EXHAUSTIVE_SCOPE = "all call histories of length <= 4 over the alphabet {add_node a/b (window [0,2] / [3,inf) / inverted), add_arc a->b / b->a / a->zz (t = 1, 4), set_depot a / b / zz} x flavours {base, seqS}"
+
+
+def gen_exhaustive():
+    import itertools
+    alphabet = [["N", "a", "0", "0", "2"], ["N", "b", "1", "3", "inf"], ["N", "a", "0", "2", "1"],
+                ["A", "a", "b", "1", "1"], ["A", "b", "a", "1", "2"], ["A", "b", "a", "4", "2"], ["A", "a", "zz", "1", "0"],
+                ["D", "a"], ["D", "b"], ["D", "zz"]]
+    for L in range(1, 5):
+        for hist in itertools.product(alphabet, repeat=L):
+            for flavor in ("base", "seqS"):
+                yield dict(flavor=flavor, ops=[list(op) for op in hist])
